@@ -426,11 +426,11 @@ H("c19_q_from_token_n4", "C19", "c19::from_token::<4, _>", "ChannelList / Numeri
 ENUMS = {"E1": "BINary|REAL|ASCii1|ASCii2|L125", "E2": "VOLTage|CURRent", "E3": "ALPHa(u8)|BETA3(u16)|GAMMa",
          "E4": "CHANnel1|CHANnel2|CHANnel10|X|MAXimum|OFF"}
 for e, d in ENUMS.items():
-    for L, tier in ((6, "q" if e != "E4" else "t"), (12, "t")) + (((4, "q"),) if e == "E4" else ()):
+    for L, tier in ((6, "q"), (12, "t")):
         H(f"c20_{tier}_select_{e.lower()}_{L}", "C20", f"c20::select::<c20::{e}, {L}, _>",
           f"derive(ScpiEnum) on {{{d}}}: from_mnemonic / TryFrom<Token> of every character datum of 0..{L} bytes == first "
           f"variant whose mnemonic reference-matches, else -224", f"character data <= {L} bytes over [A-Za-z0-9_]",
-          cap_s=(600 if L == 6 else 1800), mem_gb=4, unwind=L + 3, sample=(e == "E1" and L == 6))
+          cap_s=(900 if L == 6 else 1800), mem_gb=6, unwind=L + 3, sample=False)
     H(f"c20_q_other_{e.lower()}", "C20", f"c20::otherkinds::<c20::{e}, _>", f"{{{d}}}: every non-character element -> -104",
       "6 token kinds, symbolic payloads", cap_s=200, mem_gb=2, unwind=8)
     for vi in range(len(d.split("|"))):
